@@ -1633,9 +1633,13 @@ def compile_function_def(compiler, expr, root, is_async, decorators, tp, name, p
     with compiler.local_state(), compiler.scope.create(ScopeFn, args, is_async) as scope:
         body = compiler._compile_branch(body)
 
-    return ret + compile_function_node(
+    ret += compile_function_node(
         compiler, expr, node, decorators, tp, name, args, returns, body, scope
     )
+    # Unlike `fn`, `defn` binds the name the user chose and returns `None`, so
+    # an enclosing assignment mustn't rename the function.
+    ret.temp_variables = []
+    return ret
 
 
 def compile_function_node(compiler, expr, node, decorators, tp, name, args, returns, body, scope):
